@@ -50,6 +50,7 @@ deriving Repr
 inductive SErr where
   | tableNotExist | tableAlreadyExist | colCountMismatch | typeMismatch | intOutOfRange | rowTooLarge
   | keyExists | decode | cellNotFound | pageTableEntryMissing
+  | fieldNotFound | fieldAmbiguous
 deriving Repr, DecidableEq
 
 /-- result of a storage operation; errors keep the state reached (the Go code mutates in place) -/
@@ -437,6 +438,17 @@ def repointPageTable (old new lsn : Nat) : SM Unit := do
     let buf ← encodeRow pageTableSchema (("file_offset", .int new) :: m)
     updateCellAt c.2 c.1.key buf lsn
 
+/-- `checkColumns`: in list order, the first name that is not a column of the relation
+(`fieldNotFound`) or was named before (`fieldAmbiguous`) -/
+def checkColumnsFrom (schema : List FieldDef) (seen : List String) : List String → Option SErr
+  | [] => none
+  | c :: rest =>
+    if !(schema.any fun fd => fd.name == c) then some .fieldNotFound
+    else if seen.contains c then some .fieldAmbiguous
+    else checkColumnsFrom schema (seen ++ [c]) rest
+
+def checkColumns (schema : List FieldDef) (cols : List String) : Option SErr := checkColumnsFrom schema [] cols
+
 /-- `RelationService.Insert` -/
 def insert (table : Bytes) (cols : List String) (vals : List Val) : SM (List WalRec) := do
   let off ← relationOffset table
@@ -444,6 +456,9 @@ def insert (table : Bytes) (cols : List String) (vals : List Val) : SM (List Wal
   let schema ← relationSchema table
   let cols := if cols.isEmpty then schema.map (·.name) else cols
   if cols.length != vals.length then throw .colCountMismatch else
+  match checkColumns schema cols with
+  | some e => throw e
+  | none =>
   let m : Vals := (cols.zip vals).reverse
   let buf ← encodeRow schema m
   let (bt, id, lsn) ← btInsert ⟨off⟩ buf
@@ -458,6 +473,9 @@ def update (table : Bytes) (rowId : Nat) (cols : List String) (src : List Val) :
   let off ← relationOffset table
   let _ ← fetch off
   let schema ← relationSchema table
+  match checkColumns schema cols with
+  | some e => throw e
+  | none =>
   let cells ← scanRight off
   let logs ← mapS (fun (c : LeafCell × Nat) => do
     if c.1.key != rowId then pure [] else
@@ -552,11 +570,22 @@ def checkCatalogRows (fields : List FieldDef) (name : Bytes) : Option SErr :=
     | .error .intOutOfRange => some .intOutOfRange
     | .error .decode => some .decode
 
+/-- the per-column checks of `createTable`, column by column: a length the catalog cannot hold
+(`intOutOfRange`), then a name an earlier column has (`fieldAmbiguous`) -/
+def checkFieldsFrom (seen : List String) : List FieldDef → Option SErr
+  | [] => none
+  | fd :: rest =>
+    if fd.len > 2147483647 || fd.len < -2147483648 then some .intOutOfRange
+    else if seen.contains fd.name then some .fieldAmbiguous
+    else checkFieldsFrom (seen ++ [fd.name]) rest
+
 /-- `RelationService.CreateTable` (the flush's page write order is supplied) -/
 def createTable (fields : List FieldDef) (name : Bytes) (flushOrder : List Nat) (doFlush : Bool := true) : SM Unit := fun s =>
   match relationOffset name s with
   | .err .tableNotExist s1 =>
-    if fields.any (fun fd => fd.len > 2147483647 || fd.len < -2147483648) then .err .intOutOfRange s1 else
+    match checkFieldsFrom [] fields with
+    | some e => .err e s1
+    | none =>
     match checkCatalogRows fields name with
     | some e => .err e s1
     | none =>
